@@ -19,8 +19,8 @@ a topologically ordered commit list; `exportGraph` gives every commit its mark, 
 
 T2: generated histories (the generator of C40: merges, renames, directory moves, swaps, deletions, symlinks,
 exec bits, unicode names, odd messages and committers; integral timestamps) get tags and a branch tip, are
-exported by the real exporter (plain = the command's default; the rich format is probed separately), the
-stream is parsed with the real parser and imported into a fresh shared repository by the real
+exported by the real exporter in both formats (plain = the command's default: model + oracle; rich =
+--no-plain: oracle, graph correspondence and revision properties), the stream is parsed with the real parser and imported into a fresh shared repository by the real
 GenericProcessor.  Per commit the model's command list is compared with the real one (rename/delete prefix in
 order, modifications as a set), the model's `applyCmds` of the real commands on the imported first-parent
 tree with the imported tree, and the model's marks / from / merge lists with the stream.
@@ -28,7 +28,7 @@ tree with the imported tree, and the model's marks / from / merge lists with the
 Oracle (independent of the model): the imported repository has as many revisions as the exported branch's
 ancestry; under mark ↦ new revision id every revision has the mapped parent list (ghosts dropped), the same
 message, committer, timestamp, timezone, the same tree (paths, kinds, contents, exec bits, symlink targets;
-directories only in the rich format); the imported branch tip is the image of the tip; the tags are the
+empty directories are outside the comparison); the imported branch tip is the image of the tip; the tags are the
 images of the tags that point into the exported ancestry.
 
 Mutants this was built against (scratch worktree /var/tmp/wt-C44): exporter drops the merge lines; exporter
@@ -36,7 +36,14 @@ uses the last parent as `from`; exporter omits the `D new` before a rename onto 
 `rm a; mv b a` in one commit); importer's delete handler is a no-op; importer ignores the committer's
 timezone; emit_tags names the branch tip for every tag; kind_to_mode loses the executable bit; importer
 keeps only the first parent; exporter emits no `M` for a renamed file whose executable bit alone changed
-(T2).  Harmless (stays clean): set-comprehension rewrite of deleted_paths.
+(T2).  Harmless (stays clean): set-comprehension rewrite of deleted_paths.  Fix-reverted runs (each a plain
+VIOLATION): d152a8f (committer split), f3af31c (bytes property names of rich streams).
+
+Families (classifiers below, all computed from the abstract history): known — export-rename-chain-or-swap,
+plain-export-directory-rename-leaves-children-behind; reported — import-new-entry-at-path-vacated-by-rename,
+plain-export-directory-renamed-onto-deleted-path-drops-the-delete,
+rich-import-change-below-directory-renamed-in-same-commit, import-rename-of-file-below-directory-renamed-earlier,
+rich-import-directory-rename-in-a-merge-revision.
 """
 import collections
 import hashlib
